@@ -1,4 +1,5 @@
 import AdeuModel.Lemmas.Engine
+import AdeuModel.Lemmas.Grow
 /-
 C10 — comments requested with an edit or a reply are never lost or misattached (model-level clauses).
 -/
@@ -25,6 +26,16 @@ theorem C10_anchor_encloses (ns : List Node) (i j : Nat) (cid : Str) :
 example : attachCommentNodes [.other "a".toList, .other "del".toList, .other "ins".toList, .other "z".toList] 1 2 "7".toList =
     [.other "a".toList, .cs "7".toList, .other "del".toList, .other "ins".toList, .ce "7".toList,
      .run (crefRun "7".toList), .other "z".toList] := by decide
+
+/-- Existing comments keep their entry (text, author, date, paragraph ids, threading record) and their
+position in all four comment parts, whatever the batch does: the lists only grow at the end. -/
+theorem C10_existing_untouched (s : Sess) (edits : List HEdit) :
+    s.doc.comments <+: (Doc.applyEdits s edits).1.doc.comments ∧
+    s.doc.commentsEx <+: (Doc.applyEdits s edits).1.doc.commentsEx ∧
+    s.doc.commentsIds <+: (Doc.applyEdits s edits).1.doc.commentsIds ∧
+    s.doc.commentsCex <+: (Doc.applyEdits s edits).1.doc.commentsCex :=
+  let g := Grows_applyEdits s edits
+  ⟨g.comments, g.commentsEx, g.commentsIds, g.commentsCex⟩
 
 /-- A reply to a comment that does not exist is skipped and adds nothing. -/
 theorem C10_reply_unknown_skipped (s : Sess) (tgt tid : Str) (c : Bool) (text : Option Str)
